@@ -3,7 +3,7 @@
 # Runs the quick checks against a scratch checkout of /repo with the seeded patch applied
 # (/repo itself and /verif's own build output are not touched: VERIF_REPO + a scratch copy of /verif).
 d=$1; shift
-SR=/tmp/seed-repo; SV=/tmp/seed-verif
+SR=/tmp/seed-repo-$$; SV=/tmp/seed-verif-$$   # (unique per invocation: two seed tests may run side by side)
 git -C /repo worktree remove --force $SR >/dev/null 2>&1; rm -rf $SR
 git -C /repo worktree add -f --detach $SR HEAD >/dev/null 2>&1 || { echo "cannot create scratch worktree"; exit 2; }
 ( cd $SR && git apply "$d/patch.diff" ) || { echo "patch does not apply"; git -C /repo worktree remove --force $SR; exit 2; }
@@ -15,4 +15,4 @@ for p in "$@"; do
   echo "== $p: $( [ $rc -gt 0 ] && echo CAUGHT || echo missed )"
   echo "$out" | grep "^violation:\|^VIOLATION\|HARNESS\|^NOTE" | cut -c1-400
 done
-git -C /repo worktree remove --force $SR >/dev/null 2>&1; git -C /repo worktree prune
+git -C /repo worktree remove --force $SR >/dev/null 2>&1; git -C /repo worktree prune; rm -rf $SV
